@@ -124,6 +124,25 @@ def replies {R : Type} (max inc : Nat) (encLen : Id → R → Nat) (ms : List Me
   | .errorBatch es => [es]
   | .items its b => (runCalls max inc encLen its b calls).filterMap id
 
+/-! ### several batches in flight on one connection
+
+    Each call of `_receive_request_batch` creates its own closure variables, so a connection
+    that has received several request batches holds one `(items, ReqBatch)` per batch; a delivery
+    names the batch whose item's `send_result` is called. -/
+
+def runMulti {R : Type} (max inc : Nat) (encLen : Id → R → Nat) :
+    List (List Item × ReqBatch R) → List (Nat × Call R) → List (Nat × Option (List (Entry R)))
+  | _, [] => []
+  | bs, d :: ds =>
+      match bs[d.1]? with
+      | none => (d.1, none) :: runMulti max inc encLen bs ds
+      | some ib =>
+          match boundId ib.1 d.2.1 with
+          | none => (d.1, none) :: runMulti max inc encLen bs ds
+          | some id =>
+              let r := sendResult max inc encLen ib.2 d.2.1 id d.2.2
+              (d.1, r.2) :: runMulti max inc encLen (bs.set d.1 (ib.1, r.1)) ds
+
 /-! ### a late-binding closure (NOT what the code does; kept to show the theorems exclude it) -/
 
 /-- the id the loop variable `request_id` holds when the loop of `_receive_request_batch` is
